@@ -406,6 +406,8 @@ func cmdCheck(argv []string) int {
 			cfg.MaxPaths = cfgInt(c, "max_paths", cfg.MaxPaths)
 			cfg.MaxPreempt = int(cfgInt(c, "preempt", 0))
 			cfg.SymSched = cfgBool(c, "sym_sched")
+			cfg.Delays = int(cfgInt(c, "delays", 0))
+			cfg.DelayPreempt = cfgBool(c, "delay_preempt")
 			cfg.SelectFirst = cfgBool(c, "select_first")
 			cfg.SymMapOrder = cfgBool(c, "sym_map_order")
 			cfg.ConcretizeCap = int(cfgInt(c, "concretize_cap", int64(cfg.ConcretizeCap)))
